@@ -1480,10 +1480,13 @@ public:
             ctx_.enqueue(this, strptr_.flip(bkt[i], bktsize), depth_);
         }
 
-        this->substep_notify_done(); // release anonymous subjob handle
-
+        // the bucket boundaries are only needed again for the LCP calculation
         if (!strptr_.with_lcp)
             bkt_[0].destroy();
+
+        // release anonymous subjob handle: this may run substep_all_done(),
+        // which deletes this object. Do not touch any member afterwards.
+        this->substep_notify_done();
     }
 
     /*------------------------------------------------------------------------*/
